@@ -11,6 +11,7 @@ import SwimVerif.Proofs.ReconStruct
 
 namespace SwimVerif.ReconEq
 open SwimVerif.Recon
+open SwimVerif.Generated.ReconEq
 
 /-! ## T1 — value level: `Value::eq` is an equivalence and the hash normal form respects it -/
 
@@ -55,6 +56,15 @@ example : compareRecon "{1".toList "{1".toList = true ∧ compareRecon "{1".toLi
 theorem C15_cmp_refl (s : List SItem) : incrementalCompare s s = none ∨ incrementalCompare s s = some true :=
   incrementalCompare_refl s
 
+/-- More generally: two streams that agree event by event — the same tokens in any spelling (radix, leading zeros,
+integer kind, quoting, escapes; white space and separators never reach the events) and the same layout of bodies —
+never compare `Some(false)`. -/
+theorem C15_cmp_agreeing_streams (a b : List SItem) (h : streamsAgree a b = true) :
+    incrementalCompare a b = none ∨ incrementalCompare a b = some true := incrementalCompare_agree a b h
+
+example : streamsAgree (stream (events "{0x10, \"a\"; b:-0}".toList)) (stream (events "{ 16,a\n\"b\" : 0 }".toList)) = true ∧
+    compareRecon "{0x10, \"a\"; b:-0}".toList "{ 16,a\n\"b\" : 0 }".toList = true := by decide +kernel
+
 /-- `incremental_compare` is symmetric — for all pairs of event streams, valid or not, including the
 `StartBody`/`EndRecord` skipping and the validators' size bookkeeping. -/
 theorem C15_cmp_symm (a b : List SItem) : incrementalCompare a b = incrementalCompare b a :=
@@ -72,33 +82,52 @@ example : incrementalCompare (stream (events "@a(1,2)".toList)) (stream (events 
 example : incrementalCompare (stream (events "@a(1)".toList)) (stream (events "@a({1})".toList)) = some false := by
   decide +kernel
 
-/-! ## "equal ⇒ same hash" is false of `recon_hash` as it is (findings C15-N1, C15-N2) -/
+/-! ## "equal ⇒ same hash" is false of `recon_hash` as it is (findings C15-N1, C15-N2)
+
+The two flags are read from the source on every run (`Generated/ReconEqConsts.lean`): `floatHashZeroNormalised` is
+`false` while `NumericValue::hash` writes `to_bits` of a float, `implicitByStructure` is `false` while
+`is_implicit_record` scans the text.  The witnesses are stated under the flag they depend on, so that a repaired tree
+fails the two `example`s below at once (and cheaply) instead of a long kernel evaluation. -/
 
 /-- The statement of the property for the hash. -/
 def C15_eq_same_hash : Prop := ∀ a b : List Char, compareRecon a b = true → hashCalls a = hashCalls b
 
+example : floatHashZeroNormalised = false := by decide
+example : implicitByStructure = false := by decide
+
 /-- C15-N1: `NumericValue::hash` writes `f64::to_bits`, so `-0.0` and `0.0` (equal as events and as values) differ. -/
-theorem C15_eq_same_hash_fails : ¬ C15_eq_same_hash := by
-  intro h
-  have := h "-0.0".toList "0.0".toList (by decide +kernel)
-  revert this
-  decide +kernel
+theorem C15_hash_negzero_witness : floatHashZeroNormalised = false →
+    (compareRecon "-0.0".toList "0.0".toList = true ∧
+     (parseValue "-0.0".toList).isSome = true ∧ (parseValue "0.0".toList).isSome = true ∧
+     hashCalls "-0.0".toList ≠ hashCalls "0.0".toList) := by decide +kernel
 
 /-- C15-N2 (a): `is_implicit_record` scans the text after `@name(` for `,` `;` `:`; items separated by a new line are
 an implicit record it does not see. -/
-theorem C15_eq_same_hash_fails_newline :
-    compareRecon "@a(1\n2)".toList "@a(1,2)".toList = true ∧
-    parseValue "@a(1\n2)".toList = parseValue "@a(1,2)".toList ∧
-    hashCalls "@a(1\n2)".toList ≠ hashCalls "@a(1,2)".toList := by decide +kernel
+theorem C15_hash_newline_witness : implicitByStructure = false →
+    (compareRecon "@a(1\n2)".toList "@a(1,2)".toList = true ∧
+     (parseValue "@a(1\n2)".toList).isSome = true ∧
+     parseValue "@a(1\n2)".toList = parseValue "@a(1,2)".toList ∧
+     hashCalls "@a(1\n2)".toList ≠ hashCalls "@a(1,2)".toList) := by decide +kernel
 
 /-- C15-N2 (b): the scan does not know string literals: a `,` inside a string makes a single item an "implicit record". -/
-theorem C15_eq_same_hash_fails_string_delimiter :
-    compareRecon "@a(\"b,\")".toList "@a(\"b\\u002c\")".toList = true ∧
-    parseValue "@a(\"b,\")".toList = parseValue "@a(\"b\\u002c\")".toList ∧
-    hashCalls "@a(\"b,\")".toList ≠ hashCalls "@a(\"b\\u002c\")".toList := by decide +kernel
+theorem C15_hash_string_delimiter_witness : implicitByStructure = false →
+    (compareRecon "@a(\"b,\")".toList "@a(\"b\\u002c\")".toList = true ∧
+     (parseValue "@a(\"b,\")".toList).isSome = true ∧
+     parseValue "@a(\"b,\")".toList = parseValue "@a(\"b\\u002c\")".toList ∧
+     hashCalls "@a(\"b,\")".toList ≠ hashCalls "@a(\"b\\u002c\")".toList) := by decide +kernel
 
-/-- What does hold at the level of values (`C15_hash_respects`) is reached by the real hash on these witnesses'
-well-scanned spellings: the calls are the normal form of the parsed value. -/
+/-- So the hash half of the property is false of the code as it is (either defect suffices). -/
+theorem C15_eq_same_hash_fails (h : floatHashZeroNormalised = false ∨ implicitByStructure = false) :
+    ¬ C15_eq_same_hash := by
+  intro hp
+  rcases h with h | h
+  · have w := C15_hash_negzero_witness h
+    exact w.2.2.2 (hp _ _ w.1)
+  · have w := C15_hash_newline_witness h
+    exact w.2.2.2 (hp _ _ w.1)
+
+/-- What does hold at the level of values (`C15_hash_respects`) is reached by the real hash on well-scanned
+spellings: the calls are the normal form of the parsed value, so implicit and explicit bodies hash alike. -/
 theorem C15_eq_same_hash_partial :
     (parseValue "@a(1,2)".toList).map hnorm = some (hashCalls "@a(1,2)".toList) ∧
     (parseValue "@a({1,2})".toList).map hnorm = some (hashCalls "@a({1,2})".toList) ∧
